@@ -46,7 +46,8 @@ class _Canon(ast.NodeTransformer):
             node.test = ast.copy_location(ast.BoolOp(op=ast.And(), values=list(a) + list(b)), node.test)
             node.body = inner.body
         # canonical polarity of two-armed ifs
-        if node.orelse and not (len(node.orelse) == 1 and isinstance(node.orelse[0], ast.If)) and isinstance(node.test, ast.UnaryOp) and isinstance(node.test.op, ast.Not):
+        # (also when the else part is a single `if`, i.e. written as elif: `if not c: B elif d: X` is `if c: (if d: X) else: B`)
+        if node.orelse and isinstance(node.test, ast.UnaryOp) and isinstance(node.test.op, ast.Not):
             node.test, node.body, node.orelse = node.test.operand, node.orelse, node.body
         # ... and of two-armed ifs on one comparison: `!=` -> `==`, `not in` -> `in`, `is None` -> `is not None`
         if node.orelse and not (len(node.orelse) == 1 and isinstance(node.orelse[0], ast.If)) and isinstance(node.test, ast.Compare) and len(node.test.ops) == 1:
